@@ -85,8 +85,8 @@ MODELS = [(r'BufMut>::writer$', m_writer), (r'<(bytes::)?Bytes as From>::from$|<
           (r'(^|::)read_version_frame$', m_rv), (r'Framed(Read|Write)::get_mut$', m_get_mut)]
 
 
-def run(fname):
-    ex = e2.executor('anemo', MODELS, max_depth=6)
+def run(fname, crate='anemo'):
+    ex = e2.executor(crate, MODELS, max_depth=6)
     fn = find_fn(ex.prog, r'^%s::\{closure#0\}$' % fname)
     p, args = coroutine_start(ex, fn)
     res = ex.run(fn, args, p)
@@ -183,6 +183,28 @@ def ob_write(report, kind):
         ob.done([ex], 'held', '', {'success_paths': n_ok, 'paths': len(res), 'example': path_summary([r for r in res if is_ready_ok(r)][0], 20)}, paths=len(res))
     return guarded(report, f'{fname}_structure', f'{fname}: version preamble, then one frame = bincode::serialize_into of {Raw}{{{"route" if kind == "request" else "status"}, headers}} '
                    'built from the message, then one frame = the body; same stream; nothing else', [fname, f'{Raw}::from_header'], {'inline_depth': 6}, body)
+
+
+def ob_read_total_dbg(report, kind):
+    """the decoder in the profile the test suite (and every debug build) runs: with debug assertions compiled in, no assertion of the crate can fire on
+    what a peer sent - a `debug_assert!` about the *content* of a decoded message (a route shape, a header) turns untrusted input into a panic"""
+    fname = f'read_{kind}'
+
+    def body(ob):
+        ex, fn, res = run(fname, 'anemo@dbg')
+        n_ok = 0
+        for r in res:
+            if r.tag in ('panic', 'diverge'):
+                last = [e for e in r.events if e.kind in ('panic', 'call')][-3:]
+                return viol(ob, ex, f'{fname} (debug-assertions build) can panic on a decodable message: {[str(e.name)[:60] for e in last]} - an assertion over decoded, peer-controlled '
+                            'content is reachable', f'{fname}-dbg-panic', r, len(res))
+            if is_ready_ok(r):
+                n_ok += 1
+        if not n_ok:
+            return ob.done([ex], 'inconclusive', 'no successful path in the debug-assertions MIR', paths=len(res))
+        ob.done([ex], 'held', '', {'paths': len(res), 'success_paths': n_ok}, paths=len(res))
+    return guarded(report, f'{fname}_total_with_debug_assertions', f'{fname} compiled with -C debug-assertions=on (the dev/test profile): no path panics, whatever the frames contain',
+                   [fname, 'everything it calls in the crate, 6 levels'], {'inline_depth': 6, 'profile': 'debug assertions on, overflow checks on'}, body)
 
 
 def ob_read(report, kind):
@@ -431,8 +453,8 @@ def check(report, tier, only=None):
     report.trusted += ['bincode::serialize_into / bincode::deserialize = bincode 1.x default options: fixed-int little-endian (LE64 length | bytes; LE64 count | entries; LE16 status) - contract model',
                        'futures SinkExt::send / StreamExt::next on Framed{Write,Read} move exactly one frame']
     obs = [lambda rep: ob_write(rep, 'request'), lambda rep: ob_write(rep, 'response'), lambda rep: ob_read(rep, 'request'), lambda rep: ob_read(rep, 'response'), ob_serde_fields,
-           ob_preamble_reader, ob_preamble_writer]
-    names = ['write_request', 'write_response', 'read_request', 'read_response', 'raw_header_fields', 'preamble_reader_mir', 'preamble_writer_mir']
+           ob_preamble_reader, ob_preamble_writer, lambda rep: ob_read_total_dbg(rep, 'request'), lambda rep: ob_read_total_dbg(rep, 'response')]
+    names = ['write_request', 'write_response', 'read_request', 'read_response', 'raw_header_fields', 'preamble_reader_mir', 'preamble_writer_mir', 'read_request_dbg', 'read_response_dbg']
     for f, n in zip(obs, names):
         if only and not any(s in n for s in only):
             continue
